@@ -6,7 +6,7 @@ import typing_h as T
 
 TABLES = ["Enzymes"]
 LAKE_TARGETS = ["Moclo.Props.C12", "Moclo.Tables.Enzymes"]
-THEOREMS = ["Moclo.C12." + t for t in ["generic_structures_self_rc", "live_structures_self_rc", "fits_rc", "fits_rc_on_circle", "generic_occurs_iff", "mirrored_group_text", "mirrored_marks", "screen_rc", "live_sites_nonpalindromic", "report_rc", "valid_rc"]]
+THEOREMS = ["Moclo.C12." + t for t in ["generic_structures_self_rc", "live_structures_self_rc", "fits_rc", "fits_rc_on_circle", "generic_occurs_iff", "mirrored_group_text", "mirrored_marks", "screen_rc", "live_sites_nonpalindromic", "report_rc", "valid_rc", "graph_rc", "ent_of_report", "assemble_rc", "unique_fit_checkable"]]
 RULE = ("well-formed generic modules/vectors over every enzyme geometry (exactly the two sites) at a random rotation: "
         "valid iff the reverse complement (computed by the implementation) is, overhangs exchanged and "
         "reverse-complemented, body reverse-complemented; assemblies of the reverse complements compared (up to "
@@ -46,6 +46,12 @@ def check_typing(ctx, case):
     ctx.case(case, nontrivial=a[0] == "valid", key=[case["cls"], wd])
     ctx.op(("EVAL", cls, rw, []), case)
     ctx.op(("RC", wd, []), case)
+    # the hypotheses of `report_rc`, measured: exactly one fit on each strand
+    if two_sites and len(wd) <= 64 and ctx.evaluations % 4 == 0:
+        c1, c2 = impl.count_fits(cls.structure(), wd), impl.count_fits(cls.structure(), rw)
+        ctx.note("unique-fit-both-strands:" + str(c1 == 1 and c2 == 1))
+        ctx.op(("FITS", cls.structure(), wd), case, reply=str(c1))
+        ctx.op(("FITS", cls.structure(), rw), case, reply=str(c2))
 
 
 def check_assembly(ctx, case):
